@@ -71,13 +71,24 @@ package items
 //@ spec isLiteral(lp *ast.LexPart, it *Item) bool = has(lp.stringLitToks, it.Id) && lp.stringLitToks[it.Id] != nil
 //@ spec actOf(it *Item) Action = ite(typeis(it.Prod, *ast.LexTokDef), iface(Accept(it.Id)), ite(typeis(it.Prod, *ast.LexIgnoredTokDef), iface(Ignore(it.Id)), nil))
 //@
+//@ # the item that decides the action of a state: it matches completely; if a matching item belongs to a string literal of
+//@ # the syntax part it is such an item; otherwise no matching item was declared earlier
+//@ spec someMatch(s *ItemSet) bool = some(j, 0, len(s.Items), matches(s.Items[j]))
+//@ spec someLiteralMatch(s *ItemSet) bool = some(j, 0, len(s.Items), matches(s.Items[j]) && isLiteral(s.lexPart, s.Items[j]))
+//@ spec wins(s *ItemSet, w int) bool = 0 <= w && w < len(s.Items) && matches(s.Items[w]) && imp(someLiteralMatch(s), isLiteral(s.lexPart, s.Items[w]))
+//@   | && imp(!someLiteralMatch(s), all(j, 0, len(s.Items), imp(matches(s.Items[j]), s.Items[w].ProdIndex <= s.Items[j].ProdIndex)))
+//@ spec actionInput(s *ItemSet) bool = s != nil && s.lexPart != nil && all(j, 0, len(s.Items), s.Items[j] != nil && isTokProd(s.Items[j].Prod))
+//@
+//@ # the same in the folded form that callers pass on
+//@ opaque spec stateMatches(s *ItemSet) bool = someMatch(s)
+//@ opaque spec stateWinner(s *ItemSet, a Action) bool = some(w, 0, len(s.Items), wins(s, w) && a == actOf(s.Items[w]))
+//@
 //@ func (*ItemSet).Action
 //@   prop C01
-//@   requires [this] this != nil && this.lexPart != nil && all(j, 0, len(this.Items), this.Items[j] != nil && isTokProd(this.Items[j].Prod))
-//@   ensures [none] imp(!some(j, 0, len(this.Items), matches(this.Items[j])), result == nil)
-//@   ensures [winner] imp(some(j, 0, len(this.Items), matches(this.Items[j])), some(w, 0, len(this.Items), matches(this.Items[w]) && result == actOf(this.Items[w])
-//@   |   && imp(some(j, 0, len(this.Items), matches(this.Items[j]) && isLiteral(this.lexPart, this.Items[j])), isLiteral(this.lexPart, this.Items[w]))
-//@   |   && imp(!some(j, 0, len(this.Items), matches(this.Items[j]) && isLiteral(this.lexPart, this.Items[j])), all(j, 0, len(this.Items), imp(matches(this.Items[j]), this.Items[w].ProdIndex <= this.Items[j].ProdIndex)))))
+//@   requires [this] actionInput(this)
+//@   ensures [none] imp(!someMatch(this), result == nil)
+//@   ensures [winner] imp(someMatch(this), some(w, 0, len(this.Items), wins(this, w) && result == actOf(this.Items[w])))
+//@   ensures [folded] stateMatches(this) == someMatch(this) && imp(stateMatches(this), stateWinner(this, result) && result != nil) && imp(!stateMatches(this), result == nil)
 //@   assigns nothing
 //@   # the winner is a token or ignored-token definition, so the final type switch never takes its default arm
 //@   allow_unreachable typedefault
